@@ -93,10 +93,12 @@ Definition observation (c : case) : obs :=
   | Forced n pr msgs k tr olog onest hang =>
       mkObs (firstn (n_pushes tr) msgs) (map fst olog) (negb (has_close tr)) (negb hang)
             (negb (blocking pr msgs) && calm_obs [] tr) onest
+  (* free-running code and the real connection: an expired watchdog (30 s without the awaited state change while
+     nobody but the code under test has anything to do) is a stall, so the run counts as observed to its end *)
   | Stat n pr msgs olog onest complete =>
-      mkObs msgs olog true complete (negb (blocking pr msgs)) onest
+      mkObs msgs olog true true (negb (blocking pr msgs)) onest
   | ConnC n pr msgs olog onest hang =>
-      mkObs msgs olog true (negb hang) (negb (blocking pr msgs)) onest
+      mkObs msgs olog true true (negb (blocking pr msgs)) onest
   end.
 
 Definition agrees_shape (fx : bool) (c : case) : bool :=
